@@ -374,6 +374,17 @@ func initSyncExternals() {
 func (i *interpreter) atomicAccess(p value, write bool) {
 	if i.sched != nil && i.sched.enabled {
 		i.sched.visible(i, "atomic", p)
+		// Go memory model: atomic operations behave as if sequentially consistent; an atomic write
+		// is synchronised before every atomic read of the same variable that observes it. The model
+		// orders all atomic operations on one variable: every operation acquires the variable's
+		// clock, a write also releases into it (sync.Once's fast path `done.Load() == 1` gets its
+		// happens-before edge from here).
+		if addr, ok := p.(*value); ok && i.sched.cur != nil {
+			i.sched.cur.vc.join(i.sched.wgvc[addr])
+			if write {
+				i.sched.wgRelease(addr)
+			}
+		}
 	}
 }
 
